@@ -419,12 +419,12 @@ Proof.
   simpl. unfold dir_unregister_computation.
   destruct (stale_unpub st c ag); [split; [apply compdel_refl|split; auto; intros ? ? []]|].
   destruct (zmemk c _); [|split; [apply compdel_refl|split; auto; intros ? ? []]].
-  pose proof (unreg_comp_O (n_disc st) c None true) as HO.
-  pose proof (unreg_comp_none_X (n_disc st) c true) as HX.
-  pose proof (unreg_comp_agents (n_disc st) c None true) as HA.
-  pose proof (unreg_comp_reps (n_disc st) c None true) as HR.
-  pose proof (unreg_comp_comps_In (n_disc st) c None true) as HC.
-  destruct (d_unregister_computation (n_disc st) c None true) as [[[d1 o1] e1] x1]. simpl in *.
+  pose proof (unreg_comp_O (n_disc st) c None false) as HO.
+  pose proof (unreg_comp_none_X (n_disc st) c false) as HX.
+  pose proof (unreg_comp_agents (n_disc st) c None false) as HA.
+  pose proof (unreg_comp_reps (n_disc st) c None false) as HR.
+  pose proof (unreg_comp_comps_In (n_disc st) c None false) as HC.
+  destruct (d_unregister_computation (n_disc st) c None false) as [[[d1 o1] e1] x1]. simpl in *.
   split; [unfold compdel; simpl; intuition|]. split; auto.
   intros d x H. exists c. apply in_app_or in H as [H|H].
   - apply to_self_In in H as [_ H]. apply HO in H as [->| ->]; eauto.
